@@ -4,19 +4,24 @@
 (* code that are open (KbxTrace.cfg: all of them; KbxTraceStrict.cfg: none).  When the last event   *)
 (* has been consumed the monitor prints the deviations that were needed to explain a run.           *)
 EXTENDS Integers, Sequences, FiniteSets, TLC, Json, IOUtils, TraceLib, MCKbxDevs
-CONSTANT DevSet
+CONSTANTS DevSet,
+          Collect     \* FALSE: stop at the first mismatch (the verdict);  TRUE: go on and print all of them at the end (reports)
 P == INSTANCE KbxProps WITH Devs <- DevSet
 Trace == ndJsonDeserialize(IOEnv.TRACE)
 
-VARIABLES l, s, mismatch
-vars == <<l, s, mismatch>>
+VARIABLES l, s, mismatch, found
+vars == <<l, s, mismatch, found>>
 
-Init == l = 1 /\ s = P!S0 /\ mismatch = <<>>
+Init == l = 1 /\ s = P!S0 /\ mismatch = <<>> /\ found = <<>>
 Next == /\ l <= Len(Trace) /\ mismatch = <<>>
         /\ l' = l + 1
-        /\ LET m == P!Mon(s, Trace[l]) IN
-             /\ s' = m.s /\ mismatch' = P!FirstFail(l, m.cs)
-             /\ (l = Len(Trace) /\ mismatch' = <<>>) => PrintT(<<"VERIF-DEVS", ToJson(m.s.devs)>>)
+        /\ LET m == P!Mon(s, Trace[l])
+               f == P!FirstFail(l, m.cs)
+           IN /\ s' = m.s
+              /\ mismatch' = IF Collect THEN <<>> ELSE f
+              /\ found' = IF Collect /\ f # <<>> THEN Append(found, <<l, f[2]>>) ELSE found
+              /\ (l = Len(Trace) /\ mismatch' = <<>>) => /\ PrintT(<<"VERIF-DEVS", ToJson(m.s.devs)>>)
+                                                        /\ (Collect => PrintT(<<"VERIF-FOUND", ToJson(found')>>))
         /\ Report(mismatch')
 NoMismatch == mismatch = <<>>
 Accepted == TLCGet("stats").diameter - 1 = Len(Trace)
